@@ -2,6 +2,9 @@ use std::env;
 use std::path::PathBuf;
 
 fn main() {
+    // Verification hook guard (see async_support.rs); declared so that
+    // `unexpected_cfgs` stays quiet whether or not the guard is enabled.
+    println!("cargo:rustc-check-cfg=cfg(bytecodealliance_wit_bindgen_verif)");
     let target_arch = env::var("CARGO_CFG_TARGET_ARCH").unwrap_or(String::new());
     let target_family = env::var("CARGO_CFG_TARGET_FAMILY").unwrap_or(String::new());
     let target_env = env::var("CARGO_CFG_TARGET_ENV").unwrap_or(String::new());
